@@ -3,9 +3,14 @@
 Theorems (Props/C27.v): all one-thread histories (at most once; exactly when and
 only after primary + all dependents; double dispose of a dependent is a no-op;
 inert after release) and the invariant over ALL schedules of any number of
-threads.  Tie: K1 + K3 against the real class with a spy underlying item.
+threads; at most one parent.release() per dependent for ALL schedules of any
+number of threads disposing the same dependent (Core/RefCountOnce.v).
+Tie: K1 + K3 against the real class with a spy underlying item (logs compared
+step for step; release() calls per handle compared with the ghost counter).
 Oracle: dispose() count of the underlying item and its timing relative to the
-dispose() calls on the primary and on the dependents handed out."""
+dispose() calls on the primary and on the dependents handed out (exactly one at
+quiescence iff primary and all dependents were disposed; none while a dependent
+handed out is undisposed); at most one release() per dependent."""
 import dispcheck
 
 KINDS = ("refcount",)
